@@ -10,6 +10,7 @@ CONSTANTS
   MaxChanges = 3
   MaxCancels = 3
   SkipCancelled = TRUE
+  FastPath = FALSE
   Timely = TRUE
   StaleFullBucket = TRUE
   StaleRateOnChange = FALSE
